@@ -387,7 +387,7 @@ def gen_roundtrip(rng, n, k, big):
     sizes = ["tiny"] * 2 + ["small"] * 6 + ["8k"] * 3 + ["64k"] * 2 + (["1m"] if big else [])
     for i in range(n):
         size = rng.choice(sizes)
-        proto = rng.choice([0, 1, 2, 3, 4, 5, None])
+        proto = rng.choice([0, 1, 2, 3, 4, 5, None, -1, -2])
         if size == "1m" and proto in (0, 1):
             proto = rng.choice([2, 4])
         fk = rng.randrange(7)
@@ -461,7 +461,7 @@ def gen_carriers(rng, n, k):
         else:
             form = {"t": rng.choice(["true", "false"])}
         base = {"mode": "roundtrip", "seed": rng.randrange(10 ** 9), "size": rng.choice(["tiny", "small", "small", "8k", "64k"]),
-                "proto": rng.choice([0, 1, 2, 3, 4, 5, None]), "form": form}
+                "proto": rng.choice([0, 1, 2, 3, 4, 5, None, -1]), "form": form}
         for car in CARRIERS:
             cases.append(dict(base, carrier=car))
     return cases
@@ -479,7 +479,7 @@ def gen_compressible(rng, n, with_lists=False):
         lvl = [4, 7, 9][i % 3]
         form = rng.choice([{"t": "tuple", "v": [codec, lvl]}, {"t": "tuple", "v": [codec, lvl]}, {"t": "int", "v": lvl}])
         c = {"mode": "roundtrip", "seed": rng.randrange(10 ** 9), "size": {"zeros": kind, "mib": rng.choice([5, 6, 8])},
-             "proto": rng.choice([2, 3, 4, 5, None]), "form": form}
+             "proto": rng.choice([2, 3, 4, 5, None, -1]), "form": form}
         way = rng.choice(["path", "pathlib", "raw", "bytesio", "tempfile", "pipe", "noname", "unbuffered", "fdopen"])
         if way in ("path", "pathlib", "raw", "bytesio"):
             c["target"] = {"k": way}
@@ -830,9 +830,19 @@ def run(ctx):
             np_cases.append({"mode": "array", "seed": ctx.rng.randrange(10 ** 9), "dtype": ctx.rng.choice(mixed),
                              "shape": ctx.rng.choice([[5], [3, 4], [2, 3, 2], [1]]), "layout": ctx.rng.choice(["C", "F", "strided", "T"]),
                              "target": ctx.rng.choice(["path", "raw", "bytesio"]), "form": ctx.rng.choice(c19mod.FORMS),
-                             "proto": ctx.rng.choice([None, 2, 4, 5]), "filler": ctx.rng.choice([0, 5, 17]),
+                             "proto": ctx.rng.choice([None, 2, 4, 5, -1, -2]), "filler": ctx.rng.choice([0, 5, 17]),
                              "nested": ctx.rng.random() < 0.5, "ensure_native": ["auto", True, False][i % 3],
                              "load_via": ctx.rng.choice(["path", "fileobj"])})
+            if i % 4 == 3:       # joblib's own file objects as dump TARGETS, loaded back through every route
+                np_cases[-1].update(target=["zlibfile", "gzipfile"][(i // 4) % 2], form=0,
+                                    load_via=["path", "fileobj", "jfile"][(i // 8) % 3])
+        for dt in ("<f8", ">i4", "u1"):
+            for tgt in ("zlibfile", "gzipfile"):
+                for via in ("path", "fileobj", "jfile"):
+                    np_cases.append({"mode": "array", "seed": ctx.rng.randrange(10 ** 9), "dtype": dt, "shape": [3, 5],
+                                     "layout": "C", "target": tgt, "form": 0, "proto": ctx.rng.choice([None, 2, 4, -1]),
+                                     "filler": ctx.rng.choice([0, 3, 16]), "nested": ctx.rng.random() < 0.5,
+                                     "ensure_native": "auto", "load_via": via})
         np_cases += [c for c in c19mod.gen_big(ctx.rng) if c["layout"] == "zeros"]
         np_res = c19mod.run_parallel(np_cases, workers=6)
         for c, r in zip(np_cases, np_res):
